@@ -616,8 +616,11 @@ def main_check(pid, tier, seed, cases=None, jobs=None, wall=None):
     )
     if harness_failed:
         ev["coverage"]["harness_error"] = harness_failed[:2000]
-    os.makedirs(os.path.join(VERIF, "evidence"), exist_ok=True)
-    with open(os.path.join(VERIF, "evidence", "%s.json" % pid), "w") as f:
+    # VERIF_EVIDENCE_DIR: used by tools/seedtest.sh so that runs against a deliberately broken tree
+    # never overwrite the evidence of the real one
+    evdir = os.environ.get("VERIF_EVIDENCE_DIR") or os.path.join(VERIF, "evidence")
+    os.makedirs(evdir, exist_ok=True)
+    with open(os.path.join(evdir, "%s.json" % pid), "w") as f:
         json.dump(ev, f, indent=1, default=repr)
 
     # ---- report
